@@ -25,7 +25,7 @@ type H struct {
 	Steps []Step `json:"steps"`
 }
 
-const rule = "rapid stateful sequences on a single-node RaftNode over RocksDB (executor child): add / bulk, CreateBackup, DeleteBackup(k-th alive), ListBackups, restore(k-th alive backup) into a fresh directory followed by opening a fresh node (fresh raft directory, as the documented procedure does) on it in a second child. Model: backup id -> version and event count at backup time. Oracle: ListBackups = model (ids and metadata = version); delete removes exactly the one named; the restored node reports version v, proves membership of every event <= v and consistency of sampled pairs <= v against the snapshots ORIGINALLY issued (= reference model), answers Exists=false for every later event, and its first accepted insertion is acknowledged with version v+1 and the reference digests. Non-trivial: a restore of a backup that has >=1 insertion after it while >=2 backups are alive. distinct = FNV-64 of the history."
+const rule = "rapid stateful sequences on a single-node RaftNode over RocksDB (executor child): add / bulk, CreateBackup, DeleteBackup(k-th alive), ListBackups, restore(k-th alive backup by id, or 'the latest backup' as `qed restore` without an id does) into a fresh directory followed by opening a fresh node (fresh raft directory, as the documented procedure does) on it in a second child. Model: backup id -> version and event count at backup time. Oracle: ListBackups = model (ids and metadata = version); delete removes exactly the one named; the restored node reports version v, proves membership of every event <= v and consistency of sampled pairs <= v against the snapshots ORIGINALLY issued (= reference model), answers Exists=false for every later event, and its first accepted insertion is acknowledged with version v+1 and the reference digests. Non-trivial: a restore of a backup that has >=1 insertion after it while >=2 backups are alive. distinct = FNV-64 of the history."
 
 func TestBackupRestore(t *testing.T) {
 	rec := pbt.NewRec("C16", "TestBackupRestore", rule, "backups are taken of non-empty logs (an empty log has no version)")
@@ -44,7 +44,7 @@ func TestBackupRestore(t *testing.T) {
 					ops = append(ops, "delete")
 				}
 				if restores < pbt.Scale(2, 3) {
-					ops = append(ops, "restore", "restore")
+					ops = append(ops, "restore", "restore", "restore-latest")
 				}
 			}
 			switch op := rapid.SampledFrom(ops).Draw(rt, "op"); op {
@@ -63,9 +63,9 @@ func TestBackupRestore(t *testing.T) {
 			case "delete":
 				alive--
 				h.Steps = append(h.Steps, Step{Op: "delete", K: rapid.IntRange(0, 7).Draw(rt, "k")})
-			case "restore":
+			case "restore", "restore-latest":
 				restores++
-				h.Steps = append(h.Steps, Step{Op: "restore", K: rapid.IntRange(0, 7).Draw(rt, "k")})
+				h.Steps = append(h.Steps, Step{Op: op, K: rapid.IntRange(0, 7).Draw(rt, "k")})
 			default:
 				h.Steps = append(h.Steps, Step{Op: op})
 			}
@@ -77,6 +77,7 @@ func TestBackupRestore(t *testing.T) {
 type backup struct {
 	id      int64
 	version uint64 // version at backup time (events-1)
+	latest  bool   // restore through the "latest backup" path instead of by id
 }
 
 func unsettled(f string, a ...interface{}) error { return &pbt.Unsettled{Why: fmt.Sprintf(f, a...)} }
@@ -131,7 +132,7 @@ func exec(h H, rec *pbt.Rec) error {
 			if r.Err != "" {
 				return fmt.Errorf("step %d: CreateBackup failed: %s", si, r.Err)
 			}
-			alive = append(alive, backup{nextID, uint64(m.Len() - 1)})
+			alive = append(alive, backup{id: nextID, version: uint64(m.Len() - 1)})
 			nextID++
 			if err := checkList(fmt.Sprintf("step %d after backup", si)); err != nil {
 				return err
@@ -156,11 +157,16 @@ func exec(h H, rec *pbt.Rec) error {
 			if err := checkList(fmt.Sprintf("step %d", si)); err != nil {
 				return err
 			}
-		case "restore":
+		case "restore", "restore-latest":
 			if len(alive) == 0 {
 				continue
 			}
 			b := alive[s.K%len(alive)]
+			if s.Op == "restore-latest" {
+				// what `qed restore` does when no backup id is given: the newest existing backup
+				b = alive[len(alive)-1]
+				b.latest = true
+			}
 			restores++
 			if uint64(m.Len()-1) > b.version && len(alive) >= 2 {
 				nt = true
@@ -211,7 +217,11 @@ func prefixModel(m *refmodel.Log, k int) *refmodel.Log {
 
 func restoreAndCheck(n *rig.Node, m *refmodel.Log, b backup, dir string, seq int, rec *pbt.Rec) error {
 	rdir := fmt.Sprintf("%s/restored-%d", dir, seq)
-	r, err := n.Simple("node-restore", uint64(b.id), rdir+"/db")
+	op := "node-restore"
+	if b.latest {
+		op = "node-restore-latest"
+	}
+	r, err := n.Simple(op, uint64(b.id), rdir+"/db")
 	if err != nil {
 		return unsettled("restore: %v", err)
 	}
